@@ -277,24 +277,61 @@ pub fn script(c: &Value) -> Value {
         Out::Ok(v)
     };
     let empty = vec![];
-    let scripts: Vec<(String, String, Out)> = vec![
+    // a text that ends in a single-line comment cannot be followed by anything on its line
+    let has_line_comment = |x: &str| -> bool {
+        match tokenize_loc(d.as_ref(), x, true) {
+            Ok(t) => t.iter().any(|k| matches!(&k.token, Token::Whitespace(sqlparser::tokenizer::Whitespace::SingleLineComment { .. }))),
+            Err(_) => true,
+        }
+    };
+    if has_line_comment(s) || has_line_comment(t) {
+        return json!({"status":"skip"});
+    }
+    let tail = {
+        let toks = tokenize_loc(d.as_ref(), s, true).unwrap_or_default();
+        let nws: Vec<&TokenWithLocation> = toks.iter().filter(|k| !is_ws(&k.token)).collect();
+        let mut kws = vec![];
+        for k in nws.iter().rev().take(4).rev() {
+            if let Token::Word(w) = &k.token {
+                if w.quote_style.is_none() && w.keyword != Keyword::NoKeyword {
+                    kws.push(format!("{:?}", w.keyword));
+                }
+            }
+        }
+        let n = kws.len();
+        kws[n.saturating_sub(2)..].join(" ")
+    };
+    let s_only: Vec<(String, String, Out)> = vec![
         ("s;".into(), format!("{s};"), cat(&a, &empty)),
         ("s; SELECT 1".into(), format!("{s}; SELECT 1"), cat(&a, &sel)),
+        ("s\n;\n".into(), format!("{s}\n;\n"), cat(&a, &empty)),
+    ];
+    let t_ok = [format!("{t};"), format!("{t}; SELECT 1")].iter().zip([cat(&b, &empty), cat(&b, &sel)].iter())
+        .all(|(text, want)| parse_with(d.as_ref(), text, None, None) == *want);
+    let mut viol = vec![];
+    let mut s_ok = true;
+    for (name, text, want) in &s_only {
+        let got = parse_with(d.as_ref(), text, None, None);
+        if got != *want {
+            s_ok = false;
+            viol.push(json!({"what":"script","layout":name,"script":text,"observed":got.show(),"expected":want.show()}));
+        }
+    }
+    let scripts: Vec<(String, String, Out)> = if s_ok && t_ok { vec![
         ("s; t".into(), format!("{s}; {t}"), cat(&a, &b)),
         ("t; s".into(), format!("{t}; {s}"), cat(&b, &a)),
         (";s;;t;".into(), format!(";{s};;{t};"), cat(&a, &b)),
         ("layout".into(), format!(" ;\n{s}\n;\t;\n {t} \n; "), cat(&a, &b)),
         ("s;s;t".into(), format!("{s};{s};{t}"), { let mut v = a.clone(); v.extend(a.iter().cloned()); v.extend(b.iter().cloned()); Out::Ok(v) }),
-    ];
-    let mut viol = vec![];
+    ] } else { vec![] };
     for (name, text, want) in &scripts {
         let got = parse_with(d.as_ref(), text, None, None);
         if got != *want {
-            viol.push(json!({"what":"script","layout":name,"script":text,"observed":got.show(),"expected":want.show()}));
+            viol.push(json!({"what":"combo","layout":name,"script":text,"observed":got.show(),"expected":want.show()}));
         }
     }
     // Local: parse_statement stops before the separator and is blind to what follows it
-    for (name, text) in [("s; t", format!("{s}; {t}")), ("s;", format!("{s};")), ("s ; SELECT 1", format!("{s} ; SELECT 1"))] {
+    for (name, text) in [("s; SELECT 2", format!("{s}; SELECT 2")), ("s;", format!("{s};")), ("s ; SELECT 1", format!("{s} ; SELECT 1"))] {
         let r = std::panic::catch_unwind(std::panic::AssertUnwindSafe(|| -> Result<(Statement, Token), ParserError> {
             let mut p = Parser::new(d.as_ref()).try_with_sql(&text)?;
             let st = p.parse_statement()?;
@@ -323,7 +360,8 @@ pub fn script(c: &Value) -> Value {
             viol.push(json!({"what":"no_separator","layout":"s t","script":glued,"observed":g.show(),"expected":"an error or a single statement: two statements need `;` between them"}));
         }
     }
-    json!({"status": if viol.is_empty() {"ok"} else {"violation"}, "kind": kind, "kind_t": stmt_kind(&b[0]), "viol": viol, "glued_two": glued_two})
+    json!({"status": if viol.is_empty() {"ok"} else {"violation"}, "kind": kind, "kind_t": stmt_kind(&b[0]), "tail": tail,
+           "combined": s_ok && t_ok, "viol": viol, "glued_two": glued_two})
 }
 
 /// Is `sql` accepted as exactly one statement whose text has no top-level `;`?
